@@ -1476,17 +1476,96 @@ def lockorder_supplement(tier, seed, jobs):
                 certificate_failures=cert_fail, lock_events_checked=events)
 
 
+def scen_release(rng, n):
+    """C17, concurrent part: a subscription through thread-creating operators ends while items are still in flight
+    (queued in a scheduler, latched by a timer operator, held by a slow consumer); afterwards every handle is dropped"""
+    out = []
+    i = 0
+    srcs = ["(from_iter 1 2 3 4 5 6)", "(tsrc 0 (0 (n 1)) (0 (n 2)) (0 (n 3)) (0 (n 4)) (0 c))", "(tsrc 0 (1 (n 1)) (1 (n 2)) (1 (n 3)) (1 (e 5)))",
+            "(slow 0 (2 (n 1)) (2 (n 2)) (2 (n 3)) (2 c))"]
+    wraps = ["(observe_on %s)", "(map inc (observe_on %s))", "(observe_on (observe_on %s))", "(subscribe_on %s)", "(observe_on (subscribe_on %s))",
+             "(delay 3 %s)", "(debounce 4 %s)", "(timeout 50 %s)", "(observe_on (scan add %s))", "(take_last 2 (observe_on %s))",
+             "(buffer_with_count 2 (observe_on %s))"]
+    for w in wraps:
+        for sc in srcs:
+            p = w % sc
+            # a slow consumer: the first callback blocks for 20 ms, so the rest is queued / in flight when the subscription ends
+            out.append("(conc C17-rel-%d (pipe (sub %s (react (0 (sleep 20)))) (unsub-after 0 5)))" % (i, p)); i += 1
+            out.append("(conc C17-rel-%d (pipe (sub (take 1 %s) (react (0 (sleep 20))))))" % (i, p)); i += 1
+            out.append("(conc C17-rel-%d (pipe (sub %s (react (0 (sleep 20))))))" % (i, p)); i += 1
+            out.append("(conc C17-rel-%d (pipe (sub %s (react (1 (unsub))))))" % (i, p)); i += 1
+    for mk in ("(interval 10)", "(timer 15)", "(sample (tsrc 0 (3 (n 1)) (3 (n 2)) (25 (n 3))) (interval 10))", "(merge (interval 10) (observe_on (from_iter 1 2 3)))",
+               "(flat_map (fm_const (observe_on (from_iter 7 8))) (from_iter 1 2))", "(zip (observe_on (from_iter 1 2 3)) (interval 5))"):
+        out.append("(conc C17-rel-%d (pipe (sub %s (react (0 (sleep 12)))) (unsub-after 0 14)))" % (i, mk)); i += 1
+        out.append("(conc C17-rel-%d (pipe (sub (take 2 %s) (react))))" % (i, mk)); i += 1
+    return out
+
+
+def oracle_release(payload):
+    d = parse_pipe(payload)
+    if d is None:
+        return "malformed record"
+    m = re.search(r"TOK:u=(-?\d+),o=(-?\d+),i=(-?\d+)@", payload)
+    if not m:
+        return "no token record"
+    if d["threads"][0] != d["threads"][1]:
+        return None     # a thread that never exits is C15's finding; what it still owns is not judged here
+    u, o, it = (int(x) for x in m.groups())
+    if u or o or it:
+        return ("after every subscription ended, every thread exited and every handle was dropped the library still owns "
+                "%d user callback(s), %d operator closure(s), %d item(s)" % (u, o, it))
+    return None
+
+
+def release_supplement(tier, seed, jobs):
+    """C17, concurrent part: the pipelines of the C09 / C11 / C15 / C16 catalogues plus `scen_release` are executed under
+    seeded schedules in virtual time; at quiescence every still-live subscription is ended, every handle dropped, and the
+    live-token counters (user callbacks, operator closures, items) must all be zero."""
+    build()
+    rng = random.Random(seed * 7919 + 17)
+    thorough = tier == "thorough"
+    scen = list(scen_release(rng, 0))
+    for f in (scen_handoff, scen_merge, scen_threads, scen_ties, scen_time):
+        xs = [x[0] if isinstance(x, tuple) else x for x in f(rng, 20 if thorough else 4)]
+        scen += xs if thorough else xs[::3]
+    scen = [re.sub(r"^\(conc (\S+)", lambda m: "(conc C17c-%d-%s" % (i, m.group(1)), s_) for i, s_ in enumerate(scen)]
+    iters = 400 if thorough else 25
+    lines = run_scenarios(scen, seed, iters, "mixed", jobs)
+    execs = [l for l in lines if l.count(" | ") >= 3]
+    done = [l for l in lines if " | done " in l]
+    schedules = sum(int(re.search(r"iterations=(\d+)", l).group(1)) for l in done)
+    by_id = {x.split()[1]: x for x in scen}
+    failures = []
+    for l in execs:
+        sid, meta, status, detail, payload = parse_exec(l)
+        if status != "ok":
+            continue        # deadlocks / step limits are C07's business
+        msg = oracle_release(payload)
+        if msg:
+            failures.append((l, by_id.get(sid, sid), msg))
+    return dict(scenarios=len(scen), schedules=schedules, executions=len(execs), failures=failures)
+
+
 def replay(prop, r, path):
     build()
     sc = r.get("scenario")
     if not sc:
         print("replay names a broken obligation: %s" % r.get("broken"))
         return 1
+    env = dict(os.environ)
+    if prop == "C07":
+        env["RXH_LOCKCERT"] = "3"
     p = subprocess.run([RXH_CONC, "exact", str(r.get("seed", 0)), r.get("strategy", "random")], input=sc + "\n",
-                       stdout=subprocess.PIPE, text=True)
+                       stdout=subprocess.PIPE, text=True, env=env)
     out = p.stdout
     print(out[:3000])
     cfg = CONC.get(prop)
+    if r.get("supplement") == "release":
+        cfg = dict(model=None, oracle=oracle_release)
+    if prop == "C07":
+        def lock_oracle(payload, _detail=[None]):
+            return None
+        cfg = dict(model=None, oracle=lock_oracle)
     grp = next((g for g in (cfg or {}).get("more", []) if g.get("kind") and " (%s " % g["kind"] in sc), None)
     if grp is not None:
         cfg = dict(model=grp.get("model"), oracle=grp["oracle"], info=grp.get("info"))
@@ -1500,6 +1579,9 @@ def replay(prop, r, path):
             msg = None
             if cfg:
                 msg = cfg["oracle"](payload, info) if cfg.get("info") else cfg["oracle"](payload)
+            lo = re.match(r"lo=(\S+)", detail)
+            if prop == "C07" and lo and lo.group(1) != "ok":
+                msg = "lock order: %s" % lo.group(1)
             if status != "ok" or msg:
                 print("oracle:", msg or status)
                 bad = True
